@@ -26,6 +26,9 @@ def values(small, allt):
     vals += [{'k': [t]} for t in small]
     vals += [[[t]] for t in small]
     vals += [{'j': a, 'k': b} for a in small for b in small if a is not b]
+    # collections led by a scalar: (weight, task) pairs, a None placeholder first, a labelled tuple inside a dict
+    vals += [[None, t] for t in small] + [[(0.5, t)] for t in small] + [{'k': ('label', t)} for t in small]
+    vals += [[1, a, b] for a in small for b in small if a is not b]
     return vals
 
 
@@ -156,6 +159,16 @@ def check_one(tasks):
         return [(f'raised:{type(e).__name__}', f'build_task_diagram raised {type(e).__name__}: {e}')], None
     if text != text2:
         out.append(('nondeterministic', 'two builds of the same input differ'))
+    # every layout direction shows the same classes and arrows
+    for direction in ('TB', 'LR', 'RL', 'BT'):
+        try:
+            td = build_task_diagram(tasks, direction=direction)
+        except BaseException as e:  # noqa
+            out.append((f'raised:{type(e).__name__}', f'build_task_diagram(direction={direction!r}) raised {type(e).__name__}: {e}'))
+            continue
+        pd, pt = parse(td), parse(text)
+        if pd is None or pt is None or pd[0] != pt[0] or sorted(pd[1]) != sorted(pt[1]):
+            out.append(('direction-changes-content', f'direction={direction!r} shows other classes / arrows than the default direction'))
     parsed = parse(text)
     if parsed is None:
         return [('unparseable', 'output is not a class diagram of the expected form')], text
